@@ -587,6 +587,46 @@ def unary_stack(rnd):
     return negs(like_pair(rnd))
 
 
+def rare_forms(rnd):
+    """direct instances of the classifier arrangements that random trees seldom hit (restate-subtraction's negative constant / negated
+    variable / plus-negative forms, the chained forms of constant arithmetic, factor-out and variable multiply)"""
+    a, o1, o2 = rtree(rnd, rnd.randint(0, 1)), rtree(rnd, rnd.randint(0, 1)), rtree(rnd, rnd.randint(0, 1))
+    v, w = V(rnd.choice("xyz")), V(rnd.choice("xyz"))
+    neg = rnd.choice([C(-1), C(-2), C(-7), Cf(-3, 2), C(-12)])
+    c1, c2 = rnd.choice(CONSTS), rnd.choice(CONSTS)
+    e = rnd.choice(EXPS)
+    k = rnd.randrange(14)
+    if k == 0:
+        return ("sub", a, neg)                                  # subtract-negative-constant
+    if k == 1:
+        return ("sub", a, ("neg", v))                           # subtract-negative-variable
+    if k == 2:
+        return ("add", a, neg)                                  # add_neg_const
+    if k == 3:
+        return ("add", a, ("mul", neg, v))                      # add_neg_const_var
+    if k == 4:
+        return ("add", a, ("mul", neg, ("pow", v, e)))          # add_neg_const_var_exp
+    if k == 5:
+        return ("mul", ("mul", c1, v), c2)                      # simple_var_multiply
+    if k == 6:
+        op = rnd.choice(["add", "mul"])
+        return (op, c1, (op, (op, c2, o1), o2))                 # chained_right_deep
+    if k == 7:
+        return ("mul", ("mul", c1, o1), ("mul", ("mul", c2, o2), a))   # chained_right_left_left
+    if k == 8:
+        return ("mul", ("mul", o1, ("mul", c1, o2)), ("mul", c2, a))   # chained_left_left_right
+    t1, t2 = ("mul", c1, ("pow", v, e)), ("mul", c2, ("pow", v, e))
+    if k == 9:
+        return ("add", ("add", o1, ("add", o2, t1)), t2)        # factor-out chained_left_right
+    if k == 10:
+        return ("add", t1, ("add", ("add", t2, o1), o2))        # factor-out chained_right_left
+    if k == 11:
+        return ("add", ("add", o1, t1), ("add", t2, o2))        # factor-out chained_both
+    if k == 12:
+        return ("mul", ("mul", o1, t1), t2)                     # variable multiply chained_left_right
+    return ("mul", t1, ("mul", t2, o1))                         # variable multiply chained
+
+
 def perturb(rnd, t, n=1):
     """near-miss generator: change the operator kind of a binary node, swap a unary kind, or replace a leaf by another
     leaf class (constant <-> variable, zero / negative / fractional constant) at n random positions."""
